@@ -269,7 +269,7 @@ Proof.
   unfold bw_write. cbn [bw_len bw_buf bw_empty app]. rewrite N.sub_0_r.
   destruct (len <? CAP) eqn:E; [reflexivity|].
   apply N.ltb_ge in E. assert (Hc : (CAP <=? len) = true) by (apply N.leb_le; exact E). rewrite Hc.
-  destruct (CAP <? len); cbn [fst snd]; rewrite ?app_nil_r; reflexivity.
+  reflexivity.
 Qed.
 
 Lemma validate_next fs f : validate fs = true -> f_seq f = cnt (f_sid f) fs -> validate (fs ++ [f]) = true.
@@ -527,7 +527,10 @@ Qed.
 Lemma Safe_sess i s fs x len : J (4 * i) s fs -> env_okb s (OSess x len) = true ->
   Safe (4 * i + 1) s (compile fixed s i (OSess x len)).
 Proof.
-  intros HJ He. apply Safe_filter. cbn [compile]. rewrite filter_app, filter_truth_append. cbn [filter relevant].
+  intros HJ He. apply Safe_filter. cbn [compile]. rewrite filter_app.
+  change (filter relevant (sess_append fixed (mkf (2 * x + 1) match get (2 * x + 1) (nexts s) with Some n => n | None => 0 end (4 * i) len None)))
+    with (blk (mkf (2 * x + 1) match get (2 * x + 1) (nexts s) with Some n => n | None => 0 end (4 * i) len None)).
+  cbn [filter relevant].
   set (n := match get (2 * x + 1) (nexts s) with Some n => n | None => 0 end).
   set (f := mkf (2 * x + 1) n (4 * i) len None).
   assert (Hq : f_seq f = cnt (f_sid f) fs).
@@ -740,8 +743,8 @@ Proof.
 Qed.
 
 (* ================================================================ the code before the repairs, and the cache finding *)
-Definition v_s7 : ver := {| fw := false; fr := true |}.    (* two-write truth append (before bd2ee56) *)
-Definition v_s3 : ver := {| fw := true; fr := false |}.    (* next seq from the sidecar tail (before 0b0d2b0) *)
+Definition v_s7 : ver := {| fw := false; fr := true; ff := true |}.    (* two-write truth append (before bd2ee56) *)
+Definition v_s3 : ver := {| fw := true; fr := false; ff := true |}.    (* next seq from the sidecar tail (before 0b0d2b0) *)
 
 Definition s7_hist : list op := [OEnsure 0 300; OAppend 0 8192].
 Definition s7_more : list op := [OAppend 0 10].
